@@ -173,3 +173,50 @@ Definition loadoneliner (content : bytes) : Cres (lres (option bytes)) :=
       do x <- take_cstr buf; let (s, _) := x in
       if negb (Nat.eqb (length s + 1) j) then Ok LErr else Ok (LOk (Some s))
   end.
+
+(** -------- loadintfd before fixes/C16-loadint-strict.diff (kept for the record of F-C16-3):
+    mode 2 (no compaction), strtoul on the first C string of the buffer with its
+    white-space skip and optional sign, only [*l] tested. *)
+Definition c_isspace (b : N) : bool :=
+  N.eqb b 32 || (N.leb 9 b && N.leb b 13).
+
+Fixpoint skip_space (s : bytes) : bytes :=
+  match s with
+  | b :: r => if c_isspace b then skip_space r else s
+  | [] => []
+  end.
+
+Definition strtoul_c (s : bytes) : N * bytes :=           (* value, unparsed rest (endptr) *)
+  let t := skip_space s in
+  let '(neg, t1) := match t with
+                    | 45%N :: r => (true, r)
+                    | 43%N :: r => (false, r)
+                    | _ => (false, t)
+                    end in
+  match t1 with
+  | b :: _ =>
+      if is_digit b then
+        match strtoul_digits t1 0%N false with
+        | ((v, ovf), rest) =>
+            if ovf then (ULONG_MAX, rest)
+            else ((if neg then (18446744073709551616 - v) mod 18446744073709551616 else v)%N, rest)
+        end
+      else (0%N, s)
+  | [] => (0%N, s)
+  end.
+
+Fixpoint cstr0 (d : bytes) : bytes :=
+  match d with
+  | [] => []
+  | b :: d' => if N.eqb b 0 then [] else b :: cstr0 d'
+  end.
+
+Definition loadint_orig (content : bytes) (def : N) : Cres (lres N) :=
+  do r <- lloadfile 2 content;
+  match r with
+  | LErr => Ok LErr
+  | LOk (i, buf) =>
+      if Nat.eqb i 0 then Ok (LOk def) else
+      let '(v, rest) := strtoul_c (cstr0 buf) in
+      if is_nil_b rest then Ok (LOk v) else Ok LErr
+  end.
